@@ -74,16 +74,12 @@ Lemma unspread_fragment_refuted :
   check_operation_document w_schema_0 w_doc_0 = [] /\ rule_ok w_schema_0 w_doc_0 R_fields_exist = false.
 Proof. split; vm_compute; reflexivity. Qed.
 
-Lemma same_interface_inline_refuted :
-  check_operation_document w_schema_0 w_doc_1 = [] /\ rule_ok w_schema_0 w_doc_1 R_fields_exist = false.
-Proof. split; vm_compute; reflexivity. Qed.
-
-Lemma same_interface_spread_refuted :
-  check_operation_document w_schema_0 w_doc_2 = []
-  /\ rule_ok w_schema_0 w_doc_2 R_fields_exist = false
-  /\ rule_ok w_schema_0 w_doc_2 R_directives_defined = false
-  /\ rule_ok w_schema_0 w_doc_2 R_spreads_defined = false.
-Proof. repeat split; vm_compute; reflexivity. Qed.
+(** fixed in /repo (commit 762f951): a fragment whose type condition is the enclosing interface used to be skipped;
+    the two former witnesses are now flagged *)
+Lemma same_interface_now_flagged :
+  (exists p i, check_operation_document w_schema_0 w_doc_1 = [mkErr (FieldNotFound (s "nonexistent") (s "I")) p i])
+  /\ length (check_operation_document w_schema_0 w_doc_2) = 2.
+Proof. split; [do 2 eexists|]; vm_compute; reflexivity. Qed.
 
 Lemma custom_scalar_variable_refuted :
   check_operation_document w_schema_0 w_doc_3 = [] /\ rule_ok w_schema_0 w_doc_3 R_vars_defined = false.
@@ -96,7 +92,7 @@ Proof. split; vm_compute; reflexivity. Qed.
 (** the same documents satisfy every rule on the visible sites: the guard of the theorems below is exactly
     what separates them *)
 Example blind_spots_are_outside_the_visible_sites :
-  forallb (fun D => forallb (rule_ok_vis w_schema_0 D) all_rules) [w_doc_0; w_doc_1; w_doc_2; w_doc_3; w_doc_4] = true.
+  forallb (fun D => forallb (rule_ok_vis w_schema_0 D) all_rules) [w_doc_0; w_doc_3; w_doc_4] = true.
 Proof. vm_compute. reflexivity. Qed.
 
 (** * The walk over the definitions *)
